@@ -75,6 +75,63 @@ Theorem Proto_cas_expected_is_read :
 Proof. exact RcProtoP.cas_expected_is_read. Qed.
 Print Assumptions Proto_cas_expected_is_read.
 
+Theorem Proto_test_incs :
+  same_test (fun v : Z => nb (P_incs_conds v) 0) destructed /\
+       same_test (fun v : Z => nb (P_incs_conds v) 1) (fun v : Z => strong v =? 0) /\
+       same_test (fun v : Z => nb (P_incs_conds v) 2) destructed /\
+       same_test (fun v : Z => nb (P_incs_conds v) 3) (fun v : Z => strong v =? 0).
+Proof. exact RcProtoP.test_incs. Qed.
+Print Assumptions Proto_test_incs.
+
+Theorem Proto_test_tde :
+  same_test (fun w : Z => nb (P_tde_conds w) 0) (fun w : Z => 0 <? weak w).
+Proof. exact RcProtoP.test_tde. Qed.
+Print Assumptions Proto_test_tde.
+
+Theorem Proto_test_incw :
+  same_test (fun a : Z * Z * Z => nb (P_incw_conds (fst (fst a)) (snd (fst a)) (snd a)) 0)
+         (fun a : Z * Z * Z => weaked (fst (fst a))) /\
+       same_test (fun a : Z * Z * Z => nb (P_incw_conds (fst (fst a)) (snd (fst a)) (snd a)) 1)
+         (fun a : Z * Z * Z => weak (snd a) =? 0).
+Proof. exact RcProtoP.test_incw. Qed.
+Print Assumptions Proto_test_incw.
+
+Theorem Proto_test_decw :
+  same_test (fun f : Z => nb (P_decw_conds f) 0) (fun f : Z => weak f =? 1).
+Proof. exact RcProtoP.test_decw. Qed.
+Print Assumptions Proto_test_decw.
+
+Theorem Proto_test_isnd :
+  same_test (fun a : Z * Z => nb (P_isnd_conds (fst a) (snd a)) 0) (fun a : Z * Z => destructed (fst a)) /\
+       same_test (fun a : Z * Z => nb (P_isnd_conds (fst a) (snd a)) 1)
+         (fun a : Z * Z => strong (fst a) =? 0).
+Proof. exact RcProtoP.test_isnd. Qed.
+Print Assumptions Proto_test_isnd.
+
+Theorem Proto_test_decs :
+  same_test (fun a : Z * Z * Z => nb (P_decs_breaks (fst (fst a)) (snd (fst a)) (snd a)) 0)
+         (fun a : Z * Z * Z => strong (fst (fst a)) =? snd (fst a)).
+Proof. exact RcProtoP.test_decs. Qed.
+Print Assumptions Proto_test_decs.
+
+Theorem Proto_test_td :
+  same_test (fun o : Z => nb (P_td_conds o) 0) (fun o : Z => 0 <? strong o).
+Proof. exact RcProtoP.test_td. Qed.
+Print Assumptions Proto_test_td.
+
+Theorem Proto_test_disp :
+  forall st cc ne nc l : Z,
+       same_test (fun d : Z => nb (P_disp_conds st cc ne nc d l false false) 0)
+         (fun d : Z => d >=? DEPTH_CAP) /\
+       same_test (fun d : Z => nb (P_disp_conds st cc ne nc d l false false) 1) (fun d : Z => 0 <? d) /\
+       same_test (fun a : Z * bool => nb (P_disp_conds (fst a) cc ne nc 0 l (snd a) false) 2)
+         (fun a : Z * bool => negb (strong (fst a) =? 0) || snd a) /\
+       same_test (fun w : Z => nb (P_disp_conds st cc ne nc 0 w false false) 3) weaked /\
+       same_test (fun b : bool => nb (P_disp_conds st cc ne nc 0 l false b) 4) (fun b : bool => b) /\
+       same_test (fun n : Z => nb (P_disp_conds st cc ne n 0 l false false) 5) (fun n : Z => strong n =? 0).
+Proof. exact RcProtoP.test_disp. Qed.
+Print Assumptions Proto_test_disp.
+
 Theorem Proto_proto_incs100 :
   forall (s : state) (t : nat) (rec : list Z) (x : thr) (k : list frame),
        gett s t = Some x ->
@@ -84,13 +141,13 @@ Theorem Proto_proto_incs100 :
        micro s t rec =
        (let w := word ob in
         let w' := fadd w (nz (P_incs_adds w) 0) in
-        if nb (P_incs_conds w) 0
+        if destructed w
         then
          Some
            (sett (seto s o (with_word ob w')) t (with_frames x (FRet c false :: k)),
             [100; zo o; 0; 1000; zo o; w])
         else
-         if nb (P_incs_conds w) 1
+         if strong w =? 0
          then
           Some
             (sett (seto s o (with_tok (with_word ob w') true)) t (with_frames x (FIncS101 o c :: k)),
@@ -111,13 +168,13 @@ Theorem Proto_proto_incs101 :
        micro s t rec =
        (let w := word ob in
         let w' := fadd w (nz (P_incs_adds w) 1) in
-        if nb (P_incs_conds w) 2
+        if destructed w
         then
          Some
            (sett (seto s o (with_word ob w')) t (with_frames x (FRet c false :: k)),
             [101; zo o; 0; 1001; zo o; w])
         else
-         if nb (P_incs_conds w) 3
+         if negb (strong w =? 0)
          then
           Some
             (sett (seto s o (with_word ob w')) t (with_frames x (FRet c true :: k)),
@@ -147,7 +204,7 @@ Theorem Proto_proto_decs112 :
             links := links ob
           |} in
         let s1 := seto s o ob' in
-        let s2 := if nb (P_decs_breaks cur cnt r) 0 then defer s1 KDestruct o else s1 in
+        let s2 := if strong cur =? cnt then defer s1 KDestruct o else s1 in
         Some (sett s2 t (with_frames x (if tmp then FUnpinTmp :: k else k)), [112; zo o; 0; 1012; zo o; 1])).
 Proof. exact RcProtoP.proto_decs112. Qed.
 Print Assumptions Proto_proto_decs112.
@@ -160,7 +217,7 @@ Theorem Proto_proto_td113 :
        geto s o = Some ob ->
        micro s t rec =
        (let w := word ob in
-        if nb (P_td_conds w) 0
+        if 0 <? strong w
         then
          Some
            (sett s t (with_frames x (FDecS110 o (nz (P_td_redecs w) 0) true false :: k)),
@@ -192,7 +249,7 @@ Theorem Proto_proto_td114_retry :
        word ob <> old ->
        micro s t rec =
        (let w := word ob in
-        if nb (P_td_conds w) 0
+        if 0 <? strong w
         then
          Some
            (sett s t (with_frames x (FDecS110 o (nz (P_td_redecs w) 0) true false :: k)), [114; zo o; old])
@@ -203,10 +260,10 @@ Print Assumptions Proto_proto_td114_retry.
 Theorem Proto_proto_disp_enter :
   forall (s : state) (t : nat) (rec : list Z) (x : thr) (k : list frame),
        gett s t = Some x ->
-       forall (o : nat) (depth st cc ne nc l : Z) (cf ck : bool),
+       forall (o : nat) (depth : Z),
        frames x = FDispEnter o depth :: k ->
        micro s t rec =
-       (if nb (P_disp_conds st cc ne nc depth l cf ck) 0
+       (if depth >=? DEPTH_CAP
         then Some (sett (defer s KDestruct o) t (with_frames x k), [1020; zo o; depth])
         else Some (sett s t (with_frames x (FDisp115 o depth :: k)), [1020; zo o; depth])).
 Proof. exact RcProtoP.proto_disp_enter. Qed.
@@ -219,7 +276,7 @@ Theorem Proto_proto_disp130 :
        frames x = FDisp130 o depth w curr :: k ->
        geto s o = Some ob ->
        micro s t rec =
-       (if nb (P_disp_conds w cc ne nc depth l (negb (word ob =? w)) ck) 2
+       (if negb (strong w =? 0) || negb (word ob =? w)
         then Some (sett (defer s KDestruct o) t (with_frames x k), [130; zo o; w; 1130; zo o; 0])
         else
          Some
@@ -233,11 +290,11 @@ Print Assumptions Proto_proto_disp130.
 Theorem Proto_proto_disp117 :
   forall (s : state) (t : nat) (rec : list Z) (x : thr) (k : list frame),
        gett s t = Some x ->
-       forall (o : nat) (depth ne curr : Z) (outs : list link) (ob : obj) (st cc nep nc : Z) (cf ck : bool),
+       forall (o : nat) (depth ne curr : Z) (outs : list link) (ob : obj),
        frames x = FDisp117 o depth ne curr outs :: k ->
        geto s o = Some ob ->
        micro s t rec =
-       (if nb (P_disp_conds st cc nep nc depth (word ob) cf ck) 3
+       (if weaked (word ob)
         then
          Some
            (sett s t (with_frames x (FDecW107 o false true :: FKids depth ne curr outs :: k)), [117; zo o; 0])
@@ -283,7 +340,7 @@ Theorem Proto_proto_kid119_ok :
        0 <= depth < 2 ^ 63 ->
        micro s t rec =
        (let s1 := seto s (fst c) (with_word ob nxt) in
-        if nb (P_disp_conds st cc nep nxt depth l cf ck) 5
+        if strong nxt =? 0
         then
          Some
            (sett s1 t
@@ -315,7 +372,7 @@ Theorem Proto_proto_decw107 :
             links := links ob
           |} in
         let s1 := seto s o ob' in
-        let s2 := if nb (P_decw_conds w) 0 then defer s1 KDealloc o else s1 in
+        let s2 := if weak w =? 1 then defer s1 KDealloc o else s1 in
         Some (sett s2 t (with_frames x k), [107; zo o; 0])).
 Proof. exact RcProtoP.proto_decw107. Qed.
 Print Assumptions Proto_proto_decw107.
@@ -327,7 +384,7 @@ Theorem Proto_proto_tde102 :
        frames x = FTDe102 o :: k ->
        geto s o = Some ob ->
        micro s t rec =
-       (if nb (P_tde_conds (word ob)) 0
+       (if 0 <? weak (word ob)
         then Some (sett s t (with_frames x (FDecW107 o true false :: k)), [102; zo o; 0])
         else
          Some
@@ -347,12 +404,12 @@ Print Assumptions Proto_proto_tde102.
 Theorem Proto_proto_incw103 :
   forall (s : state) (t : nat) (rec : list Z) (x : thr) (k : list frame),
        gett s t = Some x ->
-       forall (o : nat) (cnt : Z) (ob : obj) (f : Z),
+       forall (o : nat) (cnt : Z) (ob : obj),
        frames x = FIncW103 o cnt :: k ->
        geto s o = Some ob ->
        micro s t rec =
        (let w := word ob in
-        if nb (P_incw_conds w cnt f) 0
+        if negb (weaked w)
         then Some (sett s t (with_frames x (FIncW104 o cnt w :: k)), [103; zo o; 0; 1003; zo o; w])
         else Some (sett s t (with_frames x (FIncW105 o cnt :: k)), [103; zo o; 0; 1003; zo o; w])).
 Proof. exact RcProtoP.proto_incw103. Qed.
@@ -375,13 +432,13 @@ Print Assumptions Proto_proto_incw104_ok.
 Theorem Proto_proto_incw104_retry :
   forall (s : state) (t : nat) (rec : list Z) (x : thr) (k : list frame),
        gett s t = Some x ->
-       forall (o : nat) (cnt old : Z) (ob : obj) (f : Z),
+       forall (o : nat) (cnt old : Z) (ob : obj),
        frames x = FIncW104 o cnt old :: k ->
        geto s o = Some ob ->
        word ob <> old ->
        micro s t rec =
        (let w := word ob in
-        if nb (P_incw_conds w cnt f) 0
+        if negb (weaked w)
         then Some (sett s t (with_frames x (FIncW104 o cnt w :: k)), [104; zo o; 0])
         else Some (sett s t (with_frames x (FIncW105 o cnt :: k)), [104; zo o; 0])).
 Proof. exact RcProtoP.proto_incw104_retry. Qed.
@@ -396,7 +453,7 @@ Theorem Proto_proto_incw105 :
        micro s t rec =
        (let w := word ob in
         let w' := fadd w (nz (P_incw_adds old cnt w) 0) in
-        if nb (P_incw_conds old cnt w) 1
+        if weak w =? 0
         then
          Some
            (sett
@@ -439,7 +496,7 @@ Theorem Proto_proto_isnd109_ok :
             word := snd (ncas (P_isnd_cas old r) 0);
             dropped := dropped ob;
             freed := freed ob;
-            tok := if nb (P_isnd_conds old r) 1 then true else tok ob;
+            tok := if strong old =? 0 then true else tok ob;
             wtok := wtok ob;
             links := links ob
           |} in
@@ -456,7 +513,7 @@ Theorem Proto_proto_isnd109_retry :
        word ob <> old ->
        micro s t rec =
        (let w := word ob in
-        if nb (P_isnd_conds w r) 0
+        if negb (destructed w)
         then Some (sett s t (with_frames x (FIsND109 o w r c :: k)), [109; zo o; old])
         else Some (sett s t (with_frames x (FRet c false :: k)), [109; zo o; old])).
 Proof. exact RcProtoP.proto_isnd109_retry. Qed.
